@@ -70,6 +70,10 @@ def corpus(tier):
     # requests that fail inside the KDF, after parsing (a region may already be mapped then)
     big += [("y-rom", b"$y$j7557$LdJMENpBABJJ3hIHjB1Bi."), ("gy-rom", b"$gy$j7557$LdJMENpBABJJ3hIHjB1Bi."),
             ("y-upgrade", b"$y$j752.$LdJMENpBABJJ3hIHjB1Bi."), ("y-N2", b"$y$j.T$abcdefgh"), ("7-N2", b"$7$/..../....abcdefgh")]
+    # a host with reserved huge pages: the MAP_HUGETLB request succeeds and must be released with its rounded length
+    for name, s in (("y-32M-hugepages", y_setting(b"$y$", 15, 8)), ("7-32M-hugepages", s7_setting(15, 8)),
+                    ("gy-32M-hugepages", y_setting(b"$gy$", 15, 8))):
+        c.append(("rn/" + name, [rt.obj_line(0, fill="r", seed=3), "hugeok 1"], rt.crypt_line("crypt_rn", 0, ph, s)))
     for name, s in big:
         c.append(("rn/" + name, [rt.obj_line(0, fill="r", seed=3)], rt.crypt_line("crypt_rn", 0, ph, s)))
         c.append(("ra/" + name, ["raobj 2 -1 0"], rt.crypt_line("crypt_ra", 2, ph, s)))
@@ -133,7 +137,7 @@ def do_case(item):
     acc = common.Acc()
     w = FreshWorker(rt.PATHS["vw-" + FL]) if fresh else rt.vw(FL)
     is_gs = call.startswith("gensalt")
-    base_setup = ["ledger 1", "mapcap %d" % (128 << 20)]
+    base_setup = ["ledger 1", "mapcap %d" % (128 << 20), "hugeok 0"]
     tail = ["rafree 2"] if "crypt_ra" in call else []
     # 1. un-faulted trace
     res, end = w.run(base_setup + setup0 + [call] + tail, 300)
